@@ -165,6 +165,7 @@ def stepRest (st : St) (line : String) : St × String :=
         else (.locks kind n (r == "xhash") cap LockSt.empty, "ok")
       | none => (st, "bad-op")
     | none => (st, "bad-op")
+  | ["remap", "d"] => (.remap 73, "ok")   -- NewReMap() without options: the documented default, independent of earlier users
   | ["remap", n] =>
     match parseN n with
     | some 0 => (.none, "panic")
